@@ -10,15 +10,24 @@ import ast, importlib.util, os, sys, types
 
 FW = [1, 2, 3, 4, 8, 16]
 
+def dims_of(t):
+  return t[2] if isinstance(t[2], list) else [t[2]]
+
 def spec_width(case, t):
-  if isinstance(t, list): return int(t[1][4:]) * t[2]
+  if isinstance(t, list):
+    n = 1
+    for d in dims_of(t): n *= d
+    return int(t[1][4:]) * n
   if t.startswith('Bits'): return int(t[4:])
   for name, fields in case['types']:
     if name == t: return sum(spec_width(case, s) for _, s in fields)
   raise KeyError(t)
 
 def spec_src(t):
-  if isinstance(t, list): return '[ ' + ', '.join([t[1]] * t[2]) + ' ]'
+  if isinstance(t, list):
+    src = t[1]
+    for d in reversed(dims_of(t)): src = '[ ' + ', '.join([src] * d) + ' ]'
+    return src
   return t
 
 def source(case):
@@ -73,6 +82,44 @@ def rand_struct(rng, name, inner=None):
     fields.append(['v', ['list', f'Bits{rng.choice([1, 4, 8])}', rng.randint(2, 3)]])
   return [name, fields]
 
+MD_DIMS = [[2, 3], [3, 2], [1, 3], [1, 4], [2, 2, 2], [3, 1], [2, 4], [2, 2]]
+
+def gen_matstruct(rng, uid):
+  """a bitstruct with a list field of two or three dimensions (sum of the dimensions != their product) used as a
+  whole against BitsN of its real width / the width obtained with the sum of the dimensions / neighbouring widths"""
+  ew = rng.choice([1, 2, 4, 8])
+  dims = rng.choice(MD_DIMS)
+  fields = [['m', ['list', f'Bits{ew}', dims]]]
+  if rng.random() < 0.7: fields.insert(rng.randint(0, 1), ['tag', f'Bits{rng.choice([1, 4, 8])}'])
+  M = [f'SM{uid}', fields]
+  case = {'uid': uid, 'stream': 'struct', 'types': [M], 'ports': [], 'attrs': [], 'body': [], 'widths': []}
+  if rng.random() < 0.3:
+    N = [f'SN{uid}', [['h', f'Bits{rng.choice([1, 3, 8])}'], ['p', M[0]]]]
+    case['types'].append(N); S = N
+  else: S = M
+  W = spec_width(case, S[0])
+  prod = 1
+  for d in dims: prod *= d
+  Wsum = W - ew * prod + ew * sum(dims)
+  n = max(1, rng.choice([W, W, Wsum, Wsum, W - 1, W + 1, Wsum + 1, W + ew]))
+  k = rng.random()
+  if k < 0.45:
+    case['ports'] = [['in_', 'in', S[0]], ['out', 'out', f'Bits{n}']]
+    case['body'] = ['s.out @= s.in_'] if rng.random() < 0.75 else ['t = s.in_', 's.out @= t']
+  elif k < 0.8:
+    case['ports'] = [['in_', 'in', f'Bits{n}'], ['out', 'out', S[0]]]
+    case['body'] = ['s.out @= s.in_']
+  elif k < 0.9:
+    case['ports'] = [['a', 'in', S[0]], ['b', 'in', S[0]], ['c', 'in', 'Bits1'], ['out', 'out', f'Bits{n}']]
+    case['body'] = ['s.out @= s.a if s.c else s.b']
+  else:
+    idx = ''.join(f'[{rng.randint(0, d - 1)}]' for d in dims)
+    path = ('p.' if S is not M else '') + 'm' + idx
+    case['ports'] = [['in_', 'in', S[0]], ['out', 'out', f'Bits{rng.choice([ew, ew, ew + 1])}']]
+    case['body'] = [f's.out @= s.in_.{path}']
+  case['widths'] = [n]
+  return case
+
 def near(rng, w):
   return max(1, rng.choice([w, w, w, w - 1, w + 1, 1, w + 8, 16, 2 * w]))
 
@@ -88,7 +135,9 @@ def gen_struct(rng, uid):
     out = []
     for f, s in T[1]:
       if isinstance(s, list):
-        for j in range(s[2]): out.append((f'{prefix}{f}[{j}]', int(s[1][4:])))
+        idxs = ['']
+        for d in dims_of(s): idxs = [i + f'[{j}]' for i in idxs for j in range(d)]
+        for i in idxs: out.append((f'{prefix}{f}{i}', int(s[1][4:])))
       elif s.startswith('Bits'): out.append((prefix + f, int(s[4:])))
       else:
         T2 = [t for t in case['types'] if t[0] == s][0]
@@ -253,6 +302,13 @@ def corpus():
       u += 1; cs.append(mk(u, [['in_', 'in', S], ['out', 'out', f'Bits{n}']], ['s.out @= s.in_']))
       u += 1; cs.append(mk(u, [['in_', 'in', f'Bits{n}'], ['out', 'out', S]], ['s.out @= s.in_']))
   u += 1; cs.append(mk(u, [['in_', 'in', 'SQ'], ['out', 'out', 'SP']], ['s.out @= s.in_']))
+  for n in (44, 52, 51, 53):       # Mat{ m: [[Bits8]*3]*2, tag: Bits4 } is 52 bits wide
+    for body, ports in ((['s.out @= s.in_'], lambda T: [['in_', 'in', T], ['out', 'out', f'Bits{n}']]),
+                        (['s.out @= s.in_'], lambda T: [['in_', 'in', f'Bits{n}'], ['out', 'out', T]])):
+      u += 1
+      T = f'Mat_{u}'
+      cs.append({'uid': u, 'stream': 'struct', 'types': [[T, [['m', ['list', 'Bits8', [2, 3]]], ['tag', 'Bits4']]]],
+                 'ports': ports(T), 'attrs': [], 'body': body, 'widths': [n]})
   u += 1; cs.append(mk(u, [['in_', 'in', 'SP'], ['a', 'in', 'Bits8'], ['out', 'out', 'Bits8']], ['s.out @= s.in_.x + s.a']))
   u += 1; cs.append(mk(u, [['in_', 'in', 'SP'], ['a', 'in', 'Bits8'], ['out', 'out', 'Bits8']], ['s.out @= s.in_.y + s.a']))
   u += 1; cs.append(mk(u, [['in_', 'in', 'SN'], ['out', 'out', 'Bits4']], ['s.out @= s.in_.v[1]']))
